@@ -1295,6 +1295,7 @@ xmpp_stanza_t *xmpp_stanza_reply_error(xmpp_stanza_t *stanza,
     xmpp_stanza_t *error = NULL;
     xmpp_stanza_t *item = NULL;
     xmpp_stanza_t *text_stanza = NULL;
+    xmpp_stanza_t *parent;
     const char *to;
 
     if (!error_type || !condition)
@@ -1320,6 +1321,10 @@ xmpp_stanza_t *xmpp_stanza_reply_error(xmpp_stanza_t *stanza,
     if (xmpp_stanza_add_child(reply, error) != XMPP_EOK)
         goto quit_err;
     xmpp_stanza_release(error);
+    /* from here on `reply` holds the only reference: the error path must not
+       release `error` a second time */
+    parent = error;
+    error = NULL;
 
     item = xmpp_stanza_new(ctx);
     if (!item)
@@ -1328,9 +1333,10 @@ xmpp_stanza_t *xmpp_stanza_reply_error(xmpp_stanza_t *stanza,
         goto quit_err;
     if (xmpp_stanza_set_ns(item, XMPP_NS_STANZAS_IETF) != XMPP_EOK)
         goto quit_err;
-    if (xmpp_stanza_add_child(error, item) != XMPP_EOK)
+    if (xmpp_stanza_add_child(parent, item) != XMPP_EOK)
         goto quit_err;
     xmpp_stanza_release(item);
+    item = NULL;
 
     if (text) {
         item = xmpp_stanza_new(ctx);
@@ -1340,15 +1346,17 @@ xmpp_stanza_t *xmpp_stanza_reply_error(xmpp_stanza_t *stanza,
             goto quit_err;
         if (xmpp_stanza_set_ns(item, XMPP_NS_STANZAS_IETF) != XMPP_EOK)
             goto quit_err;
-        if (xmpp_stanza_add_child(error, item) != XMPP_EOK)
+        if (xmpp_stanza_add_child(parent, item) != XMPP_EOK)
             goto quit_err;
         xmpp_stanza_release(item);
+        parent = item;
+        item = NULL;
         text_stanza = xmpp_stanza_new(ctx);
         if (!text_stanza)
             goto quit_err;
         if (xmpp_stanza_set_text(text_stanza, text) != XMPP_EOK)
             goto quit_err;
-        if (xmpp_stanza_add_child(item, text_stanza) != XMPP_EOK)
+        if (xmpp_stanza_add_child(parent, text_stanza) != XMPP_EOK)
             goto quit_err;
         xmpp_stanza_release(text_stanza);
     }
